@@ -84,8 +84,15 @@ impl CfgData {
         let mut langs = BTreeMap::new();
         for (lang, l) in v["languages"].as_object().unwrap() {
             let mut ld = LangData { long_months: BTreeMap::new(), short_months: BTreeMap::new(), duration_words: BTreeMap::new(), today_words: BTreeMap::new(), aliases: vec![], all_words: BTreeSet::new() };
-            for (k, n) in l["long_months"].as_object().unwrap() { ld.long_months.insert(k.clone(), n.as_u64().unwrap() as u32); ld.all_words.insert(k.to_lowercase()); }
-            for (k, n) in l["short_months"].as_object().unwrap() { ld.short_months.insert(k.clone(), n.as_u64().unwrap() as u32); ld.all_words.insert(k.to_lowercase()); }
+            // Only ONE long and ONE short spelling per month is effective: the loader keeps, per month number,
+            // the last name in key order (the ASCII variants of the Turkish tables are overwritten).  Which
+            // spellings a language offers is C19's subject; the generators use the effective ones.
+            for table in ["long_months", "short_months"] {
+                let mut eff: BTreeMap<u32, String> = BTreeMap::new();
+                let sorted: BTreeMap<String, u32> = l[table].as_object().unwrap().iter().map(|(k, n)| (k.clone(), n.as_u64().unwrap() as u32)).collect();
+                for (k, n) in sorted.iter() { eff.insert(*n, k.clone()); ld.all_words.insert(k.to_lowercase()); }
+                for (n, k) in eff { if table == "long_months" { ld.long_months.insert(k, n); } else { ld.short_months.insert(k, n); } }
+            }
             for (k, n) in l["constant_pair"].as_object().unwrap() {
                 ld.all_words.insert(k.to_lowercase());
                 let secs = match n.as_u64().unwrap() {
